@@ -268,7 +268,7 @@ fn gen_attrs(ch: &mut Ch, thorough: bool) -> Option<Case> {
 
 /// Debug / Default attribute flavours
 fn gen_misc(ch: &mut Ch, _thorough: bool) -> Option<Case> {
-    let cases: [(&[&str], &str); 23] = [
+    let cases: [(&[&str], &str); 27] = [
         (&["Debug"], "pub struct X<T>(#[debug(ignore)] pub T, pub Option<T>);"),
         (&["Debug"], "pub struct X<T> { #[debug(transparent)] pub a: Vec<T>, pub b: u8 }"),
         (&["Debug"], "pub enum X<'a, T> { A(#[debug(ignore)] &'a T), B { #[debug(transparent)] x: T }, C }"),
@@ -292,6 +292,11 @@ fn gen_misc(ch: &mut Ch, _thorough: bool) -> Option<Case> {
         (&["Clone", "Debug"], "pub enum X<T> { A(T), #[derive_ex(Clone(bound(T: ::core::clone::Clone)), bound(..))] B { #[derive_ex(Debug, bound(T: ::core::fmt::Debug))] x: Option<T> } }"),
         (&["Copy", "Clone", "PartialEq", "Hash"], "pub struct X<T: ?Sized>(pub *const T);"),
         (&["PartialEq", "Debug"], "pub struct X<T>(pub fn(T) -> T);"),
+        // two helper attributes with bound lists at one placement: each trait takes the most specific one
+        (&["Eq", "PartialEq", "Hash"], "#[eq(bound(T: ::core::cmp::Eq))] #[hash(bound(T: ::core::hash::Hash))] pub struct X<T>(pub T);"),
+        (&["Ord", "PartialOrd", "Eq", "PartialEq", "Hash"], "#[ord(bound(T: ::core::cmp::Ord))] #[hash(bound(T: ::core::hash::Hash))] pub struct X<T> { pub q0: T, pub c1: u8 }"),
+        (&["Eq", "PartialEq", "Hash"], "pub enum X<T, U> { #[eq(bound(T: ::core::cmp::Eq))] #[hash(bound(T: ::core::hash::Hash))] A(T), B(U) }"),
+        (&["Ord", "PartialOrd", "Eq", "PartialEq"], "#[ord(bound(T: ::core::cmp::Ord))] #[partial_ord(bound(T: ::core::cmp::PartialOrd))] #[eq(bound(T: ::core::cmp::Eq))] #[partial_eq(bound(T: ::core::cmp::PartialEq))] pub struct X<T>(pub T);"),
     ];
     let (list, item) = *ch.of(&cases);
     let entry = *ch.of(&Entry::BOTH);
@@ -362,7 +367,39 @@ fn gen_selfbound(ch: &mut Ch, _thorough: bool) -> Option<Case> {
     Some(Case { gen: "selfbound", vector: ch.vector(), list: l, item: item.trim().to_string(), entry, desc: format!("bound({pred}) at placement {place}") })
 }
 
+/// definitions generated by a `macro_rules!` macro: the field type arrives as an `ident` / `tt` fragment of the
+/// macro call, or the whole derive_ex attribute arrives as a `meta` fragment
+fn gen_macro(ch: &mut Ch, _thorough: bool) -> Option<Case> {
+    let li = ch.pick(LISTS.len());
+    let list = LISTS[li];
+    let deref = list.iter().any(|t| t.starts_with("Deref"));
+    let ops = list.iter().any(|t| is_op(t));
+    // 0 struct X { a: Fty, b: Fty }, 1 struct X(Fty), 2 enum X { A, B(Fty), C { q: Fty } }
+    let shape = ch.pick(3);
+    if deref && shape != 1 || ops && shape == 2 {
+        return None;
+    }
+    let frag = *ch.of(&["ident", "tt", "meta"]);
+    let entry = *ch.of(&Entry::BOTH);
+    let d = if list.contains(&"Default") { "#[default] " } else { "" };
+    let item = match shape {
+        0 => "pub struct X { pub a: Fty, pub b: Fty }".to_string(),
+        1 => "pub struct X(pub Fty);".to_string(),
+        _ => format!("pub enum X {{ {d}A, B(Fty), C {{ q: Fty }} }}"),
+    };
+    Some(Case { gen: "macro", vector: ch.vector(), list: list.iter().map(|s| s.to_string()).collect(), item, entry, desc: frag.to_string() })
+}
+
 fn program(c: &Case) -> String {
+    if c.gen == "macro" {
+        let list = c.list.join(", ");
+        let ex = if c.entry == Entry::Derive { "#[derive(Ex)] " } else { "" };
+        let body = match c.desc.as_str() {
+            "meta" => format!("macro_rules! mk {{ ($m:meta) => {{ {ex}#[$m] {} }} }}\nmk!(derive_ex({list}));\n", c.item),
+            f => format!("macro_rules! mk {{ ($t:{f}) => {{ {ex}#[derive_ex({list})] {} }} }}\nmk!(Fty);\n", c.item.replace("Fty", "$t")),
+        };
+        return format!("use derive_ex::{{derive_ex, Ex}};\npub type Fty = i8;\n{body}");
+    }
     let list = c.list.join(", ");
     let head = match c.entry {
         Entry::Attr => format!("#[derive_ex({list})]"),
@@ -373,10 +410,10 @@ fn program(c: &Case) -> String {
 
 pub fn run(ctx: &Ctx, rep: &mut Report) {
     let thorough = ctx.tier.is_thorough();
-    rep.rule = "terminal state = (trait list x struct/enum shape incl. empty and single-variant enums x generics option [type/const/lifetime parameters, inline bounds, defaults, where-clauses incl. `Self`, hostile names H and 'a, ?Sized tail] x field type over the parameters x entry point) | (comparison list x shape x attribute flavour [by closure / by path / key / ignore / reverse] x position first/middle/last x generic field type) | fixed Debug/Default flavours | (trait list x 3 shapes x explicit bound(..) whose predicates mention `Self` x 7 placements [shared / per-trait / helper attribute at type, field, variant]); cases whose in-process expansion contains a compile_error! are set aside; the rest is compiled metadata-only with warnings on; distinct by program text; non-trivial = accepted by the expander and generic or attributed".into();
+    rep.rule = "terminal state = (trait list x struct/enum shape incl. empty and single-variant enums x generics option [type/const/lifetime parameters, inline bounds, defaults, where-clauses incl. `Self`, hostile names H and 'a, ?Sized tail] x field type over the parameters x entry point) | (comparison list x shape x attribute flavour [by closure / by path / key / ignore / reverse] x position first/middle/last x generic field type) | fixed Debug/Default flavours | (trait list x 3 shapes generated by a macro_rules! macro with the field type as ident / tt fragment or the attribute as meta fragment) | (trait list x 3 shapes x explicit bound(..) whose predicates mention `Self` x 7 placements [shared / per-trait / helper attribute at type, field, variant]); cases whose in-process expansion contains a compile_error! are set aside; the rest is compiled metadata-only with warnings on; distinct by program text; non-trivial = accepted by the expander and generic or attributed".into();
     rep.assumptions = vec!["user-written pieces are well-typed by construction: field types either mention a type/const parameter (then covered by the generated bound) or implement every derived trait; closures / paths / keys are well-typed under the explicit bound(..) given".into(), "every error and every warning attributed to an accepted case counts (the scaffolding is warning-free by construction; unused imports are allowed crate-wide)".into()];
     let mut cases: Vec<Case> = Vec::new();
-    let gens: [(&str, fn(&mut Ch, bool) -> Option<Case>); 4] = [("struct", gen_struct), ("attrs", gen_attrs), ("misc", gen_misc), ("selfbound", gen_selfbound)];
+    let gens: [(&str, fn(&mut Ch, bool) -> Option<Case>); 5] = [("struct", gen_struct), ("attrs", gen_attrs), ("misc", gen_misc), ("selfbound", gen_selfbound), ("macro", gen_macro)];
     if let Some(p) = &ctx.replay {
         let v: serde_json::Value = serde_json::from_str(&std::fs::read_to_string(p).expect("replay file")).expect("replay json");
         let vec: Vec<usize> = v["case"]["vector"].as_array().unwrap().iter().map(|x| x.as_u64().unwrap() as usize).collect();
